@@ -95,6 +95,7 @@ def gen_case(seed, tier, index=0):
     sentinel = [{"path": "secret.txt", "content": "do not touch\n"}, {"path": "dir/inner.py", "content": "y = 2\n"},
                 {"path": "dir/sub/other.c", "content": "int y;\n"}, {"path": "ro.txt", "content": "ro\n", "mode": 0o444}]
     symlinks = []
+    dangling_dest = False
     if rng.chance(0.8):
         symlinks.append({"path": "src/link_file.py", "target": "@S/dir/inner.py"})
     if rng.chance(0.7):
@@ -105,6 +106,10 @@ def gen_case(seed, tier, index=0):
         symlinks.append({"path": "dangling.py", "target": "nonexistent-target"})
     if rng.chance(0.3):
         symlinks.append({"path": "LICENSES/linked.txt", "target": "@S/secret.txt"})
+    if rng.chance(0.15):
+        # the place a licence text would go to is taken by a symlink that points nowhere (yet): outside or inside the project
+        symlinks.append({"path": "LICENSES/0BSD.txt", "target": rng.pick(["@S/not-there.txt", "../missing-target.txt"])})
+        dangling_dest = True
     if rng.chance(0.12):
         # a .license companion that is itself a symlink: to a file outside the project, to nothing (outside), or to a
         # shared companion inside the project
@@ -247,6 +252,8 @@ def gen_case(seed, tier, index=0):
             ids = rng.sample(G.VALID + ["LicenseRef-Custom", "Foo-1.0"], rng.randint(1, 2))
             if rng.chance(0.5) and "MIT" not in ids:
                 ids[0] = "MIT"  # a target that usually exists already
+            if dangling_dest and rng.chance(0.7) and "0BSD" not in ids:
+                ids[-1] = "0BSD"
             argv = rng.pick([["download"] + ids, ["download", "--all"], ["download", "-o", "docs/downloaded.txt", ids[0]],
                              ["download", "-o", "third_party/x.txt", ids[0]],
                              ["download", "--source", "srclic", "LicenseRef-Custom"],
